@@ -23,9 +23,11 @@ RULE = ('Hypothesis draws the chain length (2..6), local dimensions (2..3; per-s
         'Non-trivial: inhomogeneous lists, complex data, even chain length, or interaction rank 2.')
 RULE += (' ' + "Added classes: state dtype independent of the components' dtype, site-dependent lists with a uniform bulk and one defect site, weakly coupled bonds, per-bond interaction ranks, in-place update of the component arrays.")
 
+RULE += (' Added class: threshold 0 / 1e-14 given explicitly (no truncation written out).')
+
 ASSUMPTIONS = [
     'oracle: scipy.linalg.expm of dense even/odd generators built by the harness; published Yoshida / Kahan-Li coefficients',
-    'no truncation is active: max_rank = 200, threshold at its default 1e-12',
+    'no truncation is active: max_rank = 200, threshold at its default 1e-12, or 0 / 1e-14 given explicitly',
     'order measurement: error ratio between n and 2n steps; cases whose finer error is below 1e-11 (rounding level) are not judged',
     'list-valued L/M may be reshaped in place from 2-D to 3-D by the routine; only their values are required to stay unchanged',
 ]
@@ -62,7 +64,8 @@ def split_case(draw):
             'update_in_place': draw(st.sampled_from([False, False, True])),
             'weak_bond': None if hom else draw(st.sampled_from([None, None, 0, 1, 2, 3])),
             # the state's dtype need not be that of the components: a complex state under real components and the other way round
-            'state_cplx': draw(st.sampled_from([None, None, True, False])) if klass != 'stochastic' else None})
+            'state_cplx': draw(st.sampled_from([None, None, True, False])) if klass != 'stochastic' else None,
+            'threshold': draw(st.sampled_from([None, None, None, 0, 0.0, 1e-14]))})
     if uniform_bulk:
         c['bond_ranks'] = None
         c['weak_bond'] = None
@@ -174,10 +177,11 @@ def lib_args(c, Sl, Ll, Ml, scale):
     return ([s * scale for s in Sl], [Larr(l) for l in Ll], [np.eye(n) for n in dims], [Marr(m) for m in Ml])
 
 
-def call(scheme, args, x0, h, n, normalize):
+def call(scheme, args, x0, h, n, normalize, threshold=None):
     f = {'lie': ode.lie_splitting, 'strang': ode.strang_splitting, 'yoshida': ode.yoshida_splitting, 'kahan_li': ode.kahan_li_splitting}[scheme]
     a = tuple([x.copy() for x in arg] if isinstance(arg, list) else arg.copy() for arg in args)
-    return f(a[0], a[1], a[2], a[3], x0, h, n, max_rank=200, normalize=normalize), a
+    kw = {} if threshold is None else {'threshold': threshold}       # (0: "no truncation" written out; 1e-14: below the default)
+    return f(a[0], a[1], a[2], a[3], x0, h, n, max_rank=200, normalize=normalize, **kw), a
 
 
 def one_step(scheme, Ae, Ao, h):
@@ -225,7 +229,7 @@ def body_structure(c):
         x0.cores[0] = x0.cores[0] * 10.0 ** c['x_scale_exp']
     snap = build.snapshot(x0)
     p = c['normalize']
-    sol, passed = call(c['scheme'], args, x0, h, c['steps'], p)
+    sol, passed = call(c['scheme'], args, x0, h, c['steps'], p, c.get('threshold'))
     require(isinstance(sol, list) and len(sol) == c['steps'] + 1, 'length', '%d states for %d steps' % (len(sol), c['steps']))
     build.require_unchanged(x0, snap, 'initial value')
     # component arguments keep their values (lists may have been reshaped 2-D -> 3-D)
@@ -293,6 +297,8 @@ def body_structure(c):
         lab.add('int_components')
     if c.get('x_scale_exp', 0):
         lab.add('rescaled_state')
+    if c.get('threshold') is not None:
+        lab.add('threshold_zero' if c['threshold'] == 0 else 'threshold_1e-14')
     return lab
 
 
